@@ -52,7 +52,7 @@ func TestCredentialHistories(t *testing.T) {
 		byKey[m.key()] = m
 	}
 	x := e.x
-	vk.Check(t, 160, 6400, func(rt *rapid.T, c *vk.Case) {
+	vk.Check(t, 160, 4000, func(rt *rapid.T, c *vk.Case) {
 		user := fmt.Sprintf("h%d_%d", vk.Shard(), e.uniqN())
 		perms := map[string]level{}
 		perms[dbA] = []level{lvR, lvRW, lvAdmin}[rapid.IntRange(0, 2).Draw(rt, "permA")]
@@ -95,6 +95,9 @@ func TestCredentialHistories(t *testing.T) {
 			}
 			body := res.bytes()
 			for _, db := range append([]string{sysDB}, e.known...) {
+				if db == sysDB && mayRead(cr, dbB) && perms[dbB] >= lvAdmin {
+					continue // the secret user has a permission on dbb: the admins of dbb may list it
+				}
 				if bytes.Contains(body, []byte(marker(db))) && !mayRead(cr, db) {
 					c.Failf(rt, map[string]any{"trace": trace}, "%s returned content of %s although the user now holds %s on it (active=%v, ended=%v)", what, db, perms[db], active, cr.ended)
 				}
